@@ -50,6 +50,28 @@ def cases(draw, d):
     return dict(dialect=d, texts=texts, ntokens=len(doc["tokens"]))
 
 
+@st.composite
+def gap_cases(draw, d):
+    """Labels in which some parameters lack their value (loadable by the permissive
+    variants, C08): white space and comments must not matter there either."""
+    nodes = draw(st.lists(gt.stmt_nodes(d), min_size=2, max_size=5))
+    n = gt.count_assignments(nodes)
+    if n == 0:
+        nodes = nodes + [("assign", "zz", [gt.T("1", "word", ("int", 1))], ("int", 1),
+                          False)]
+        n = 1
+    gaps = frozenset(draw(st.lists(st.integers(0, n - 1), min_size=1, max_size=3)))
+    toks, items, gap_eqs = gt.flatten_nodes(nodes, gaps)
+    if draw(st.booleans()):
+        toks = toks + [gt.T("END", "end")]
+    doc = dict(tokens=toks, expected=None, tail="")
+    s1 = draw(st.integers(0, 2 ** 32))
+    s2 = draw(st.integers(0, 2 ** 32))
+    texts = [gt.canonical_text(doc), gt.seeded_layout(doc, d, s1, "full"),
+             gt.seeded_layout(doc, d, s2, "full")]
+    return dict(dialect=d, texts=texts, ntokens=len(toks))
+
+
 MIXED = {
     # (grammar the caller names, decoder class built with its own default grammar)
     "default+OmniDecoder()": ("default", "OmniDecoder"),
@@ -123,7 +145,8 @@ def random_cases(acc, d, n, seed):
     @settings(max_examples=n, database=None, deadline=None,
               phases=[Phase.generate],
               suppress_health_check=list(HealthCheck))
-    @given(cases(d))
+    @given(st.integers(0, 4).flatmap(
+        lambda k: gap_cases(d) if (k == 0 and d in ("default", "ISISv")) else cases(d)))
     def body(case):
         if acc.expired():
             acc.notes["budget_exhausted"] = 1
